@@ -28,6 +28,16 @@ func (v *Vue) evalTemplate(ctx VueContext, nodes []*html.Node, componentData map
 
 		// Check for include attribute - handle inclusion first
 		if helpers.HasAttr(node, "include") {
+			// (noted before evalAttributes replaces the attributes by their values)
+			bound := map[string]bool{}
+			for _, attr := range node.Attr {
+				if name, ok := strings.CutPrefix(attr.Key, "v-bind:"); ok {
+					bound[name] = true
+				} else if name, ok := strings.CutPrefix(attr.Key, ":"); ok {
+					bound[name] = true
+				}
+			}
+
 			vars, err := v.evalAttributes(ctx, node)
 			if err != nil {
 				return nil, err
@@ -35,8 +45,13 @@ func (v *Vue) evalTemplate(ctx VueContext, nodes []*html.Node, componentData map
 
 			delete(vars, "include")
 
-			// auto decode params as json, e.g. `data="{...}"` or `[...]`
+			// auto decode params as json, e.g. `data="{...}"` or `[...]` - JSON
+			// written in the template. A bound value (:p="x") keeps the type it
+			// has: a string from the data stays a string, whatever it looks like.
 			for k, v := range vars {
+				if bound[k] {
+					continue
+				}
 				if vs, ok := v.(string); ok {
 					if strings.HasPrefix(vs, "{") || strings.HasPrefix(vs, "[") {
 						var out any
